@@ -50,6 +50,18 @@ func drawHeaderNetwork(t *sim.Tape, length int) *consensus.Network {
 	n.BlockInterval = pick(t, 10*time.Minute, time.Minute, 10*time.Second, time.Hour, 10*time.Millisecond, time.Second)
 	n.MaturityDelay = 3
 	n.InitialTarget = targetForDifficulty(pick(t, 2, 1, 4, 16, 64, 256))
+	anyTarget := func(salt uint64) (id types.BlockID) {
+		// targets that are no integer's inverse, up to the easiest there is
+		copy(id[:], sim.HashBytes("hdr-target", uint64(t.Choose(1<<16)), salt, 32))
+		id[0] = pick(t, byte(0x7f), 0x80, 0xc0, 0x3f, 0xff, 0x55, 0x7f, 0x20)
+		if t.Chance(1, 3) {
+			id[1] = pick(t, byte(0xf0), 0xff, 0x00)
+		}
+		return
+	}
+	if t.Chance(1, 5) {
+		n.InitialTarget = anyTarget(1)
+	}
 	// Oak before / at / after multiples of 500 so that pre-Oak retargets happen
 	n.HardforkOak.Height = uint64(pick(t, 20, 499, 500, 501, 620, 1001, 7, 1500))
 	if int(n.HardforkOak.Height) > length {
@@ -61,6 +73,9 @@ func drawHeaderNetwork(t *sim.Tape, length int) *consensus.Network {
 	n.HardforkASIC.Height = n.HardforkOak.Height + uint64(pick(t, 10, 1, 2, 100, 400))
 	n.HardforkASIC.OakTime = time.Duration(t.Range(1, 500)) * max(n.BlockInterval, time.Second)
 	n.HardforkASIC.OakTarget = targetForDifficulty(pick(t, 16, 1, 4, 64, 256, 1024))
+	if t.Chance(1, 6) {
+		n.HardforkASIC.OakTarget = anyTarget(2)
+	}
 	n.HardforkASIC.NonceFactor = uint64(pick(t, 1009, 1, 7, 2))
 	n.HardforkFoundation.Height = n.HardforkASIC.Height + uint64(t.Range(0, 50))
 	n.HardforkFoundation.PrimaryAddress = types.VoidAddress
@@ -302,14 +317,17 @@ func (h *hdrRun) checkRetarget(old, nw consensus.State, child uint64, era string
 		lo.Quo(lo, big.NewInt(loDen)).Sub(lo, one)
 		hi := new(big.Int).Mul(to, big.NewInt(hiNum))
 		hi.Quo(hi, big.NewInt(hiDen)).Add(hi, one)
-		// targets are stored in 32 bytes and the library saturates every value
-		// of 2^255 and above to the maximum target (difficulty 1); with the
-		// cheap proof of work of a simulation that end of the range is reached,
-		// on a real network never (DESIGN Appendix F)
-		if hi.BitLen() >= 256 {
+		// targets are stored in 32 bytes: a bound beyond the easiest target there
+		// is means the easiest target
+		if hi.BitLen() > 256 {
 			hi.Set(maxTargetBig)
 		}
-		if tn.Cmp(lo) < 0 || tn.Cmp(hi) > 0 {
+		if tn.Cmp(hi) > 0 && tn.Cmp(maxTargetBig) == 0 && hi.BitLen() == 256 {
+			// the bound fits in 32 bytes and the target went past it, all the way to
+			// the easiest: reported under a name of its own (it is what every chain at
+			// a difficulty below two meets)
+			h.violate("retarget-clamp-easiest-target", fmt.Sprintf("height %d (%s): target moved outside the clamp to the easiest target although the bound fits in 32 bytes: %v -> %v (allowed up to %v)", child, era, to, tn, hi))
+		} else if tn.Cmp(lo) < 0 || tn.Cmp(hi) > 0 {
 			h.violate("retarget-clamp", fmt.Sprintf("height %d (%s): target moved outside the clamp: %v -> %v (allowed %v..%v)", child, era, to, tn, lo, hi))
 		}
 		side := "none"
